@@ -4,7 +4,9 @@
 import json, os, subprocess, sys, shutil, time
 pid, n = sys.argv[1], sys.argv[2]
 extra = sys.argv[3:]
-out = "/tmp/seedwork/out-%s" % pid
+prefix = os.environ.get("SEED_OUT", "out")
+tag = os.environ.get("SEED_TAG", "m")
+out = "/tmp/seedwork/%s-%s" % (prefix, pid)
 ver = json.load(open("%s/verify%s.json" % (out, n)))
 assert ver["ok"], "stage 1 did not confirm this mutant"
 diff = "%s/mutant%s.diff" % (out, n)
@@ -25,14 +27,14 @@ try:
 finally:
     sh(["git", "-C", "/repo", "checkout", "--", "."])
 assert sh(["git", "-C", "/repo", "status", "--short"])[1].strip() == ""
-dst = "/verif/seeded/%s-m%s" % (pid, n)
+dst = "/verif/seeded/%s-%s%s" % (pid, tag, n)
 os.makedirs(dst, exist_ok=True)
 shutil.copy(diff, dst + "/patch.diff")
 shutil.copy("%s/demo%s.rs" % (out, n), dst + "/demo.rs")
 shutil.copy("%s/notes%s.md" % (out, n), dst + "/notes.md")
 notes = open("%s/notes%s.md" % (out, n)).read()
 meta = {
-    "id": "%s-m%s" % (pid, n),
+    "id": "%s-%s%s" % (pid, tag, n),
     "breaks_property": pid,
     "origin": "independent sub-agent given only the property text and a scratch worktree",
     "needs_to_manifest": "see notes.md (written by the author of the change)",
